@@ -361,3 +361,43 @@ def classify_raise(st, exc):
 
 def classify_noraise(st, exc):
     return "no-raise:" + str(exc).split("(")[0][:40]
+
+
+def suite_under_monitors(job):
+    """The repository's own tests as one more workload: run them in-process with the recording backend attached, the
+    LinComb constructor contract on and every emitted constraint evaluated online (C01) / every object judged (C04)."""
+    import os
+    from vf import contracts, recorder
+    props = set(job["props"])
+    rt = boot.attach()
+    contracts.install_lincomb_contract()
+    contracts.State.track = True
+    runs = {p: common.Run(p, LEVEL[p], RULES[p]) for p in props}
+    import pytest
+    recorder.reset()
+    rc = pytest.main(["-q", "-p", "no:cacheprovider", "-x", os.path.join(boot.REPO, "test")])
+    ncon = len(recorder.constraints)
+    contracts.sweep("end of test-suite")
+    for p in props:
+        runs[p].count("repository_tests_run_under_monitors", 1)
+    if rc != 0:
+        for p in props:
+            runs[p].inconc("the repository's tests did not pass on the recording backend (pytest exit %s)" % rc)
+    if "C01" in props:
+        R = runs["C01"]
+        R.count("constraints_evaluated", ncon)
+        R.case(cell="repository-test-suite", key=("suite",), nontrivial=ncon > 0)
+        bad = r1cs.unsatisfied(recorder.constraints, recorder.values, recorder.modulus)
+        if bad or recorder.online_bad:
+            R.violation("unsatisfied-constraint", "constraint %s emitted while running the repository's own tests is not satisfied by the recorded witness" % (
+                (bad or recorder.online_bad)[:3],), workload="repository test-suite")
+    if "C04" in props:
+        R = runs["C04"]
+        R.count("objects_judged", len(contracts.State.created))
+        R.count("contract_evaluations", contracts.State.evaluations)
+        R.case(cell="repository-test-suite", key=("suite",), nontrivial=len(contracts.State.created) > 0)
+        if contracts.State.mismatches:
+            o, val, wire, where = contracts.State.mismatches[0]
+            R.violation("value-wire-mismatch", "while running the repository's own tests: reported value %s but wire expression evaluates to %s" % (val, wire),
+                        workload="repository test-suite", n_mismatches=len(contracts.State.mismatches))
+    return {p: runs[p].export() for p in props}
